@@ -343,7 +343,7 @@ def model_timer(model, cfg, calls):
         mc.append(m)
     r = model.call("timer", init=cfg["init"], dflt=cfg["dflt"], all=cfg["all"], calls=mc)
     if r["model"] != r["spec"]:
-        raise common.Infra(f"Lean model and Lean stop-watch specification differ (contradicts C15_timer_refines_stopwatch / C15_timer_str): {cfg} {calls} {r}")
+        raise common.Infra(f"Lean model and Lean stop-watch specifications (tick counting / gap summing) differ (contradicts C15_timer_refines_stopwatch / _clock / C15_timer_str): {cfg} {calls} {r}")
     return r
 
 
@@ -429,6 +429,97 @@ def check_timer(ctx, model, case, origin="gen"):
     ctx.disagree("driver.timer", small, {"what": mis2["what"], "call_index": mis2["call_index"], "value": mis2["impl"]},
                  {"what": mis2["what"], "value": mis2["model"]}, oracle=timer_oracle)
     return False
+
+
+def check_timer_float(ctx, model, max_ops):
+    """the real `Timer` on a FLOAT clock (dyadic values k * 2^-e, possibly below zero, so every float operation is
+    exact) against the generic-clock model at tau = Int (values scaled by 2^e) and its gap-summing specification"""
+    rng = ctx.rng
+    for _ in range(ctx.n(250, 1500)):
+        cfg, calls = G.gen_timer_case(rng, max_ops)
+        calls = [c for c in calls if c["op"] != "str"]
+        if not calls:
+            continue
+        e = int(rng.integers(0, 11))
+        off = int(rng.integers(-200, 50))
+        scale = 2.0 ** (-e)
+        fcalls = [dict(c, t=(c["t"] + off) * scale) for c in calls]
+        impl, keys = D.run_timer(cfg, fcalls)
+        mc = []
+        for c in calls:
+            m = {"t": c["t"] + off, "op": c["op"], "arg": c.get("arg")}
+            if c["op"] == "elapsed":
+                m["total"] = c["total"]
+            if c["op"] in ("ctx_enter", "ctx_exit"):
+                m["action"] = c["action"]
+            mc.append(m)
+        r = model.call("timerz", init=cfg["init"], dflt=cfg["dflt"], all=cfg["all"], calls=mc)
+        if r["model"] != r["spec"]:
+            raise common.Infra(f"Lean generic-clock model and gap-summing specification differ (contradicts C15_timer_refines_stopwatch_clock): {cfg} {mc} {r}")
+        nt = False
+        for i, (a, b) in enumerate(zip(impl, r["model"])):
+            want = -1 if b == "key" else b * scale
+            got = float(a) if not isinstance(a, str) else a
+            if calls[i]["op"] == "elapsed" and b != "key" and b != 0:
+                nt = True
+            if got != want:
+                case = {"kind": "timer", "cfg": cfg, "calls": fcalls[: i + 1]}
+                ctx.case({"kind": "timer-float", "calls": len(calls)}, None)
+                ctx.disagree("driver.timer_float", case, {"call_index": i, "value": a}, {"value": want, "scale": scale},
+                             oracle=timer_float_oracle)
+                break
+        else:
+            ctx.case({"kind": "timer-float", "calls": len(calls), "exp": e, "offset": off}, json.dumps([cfg, mc, e]) if nt else None, sample_every=300)
+            ctx.count(f"timer-float:2^-{e}")
+            ctx.count("timer-float:clock starts below zero" if off + calls[0]["t"] < 0 else "timer-float:clock starts at or above zero")
+
+
+def timer_float_oracle(case):
+    """ideal stop-watch on the float history by summing the running intervals (no model): dyadic values, exact"""
+    cfg, calls = case["cfg"], case["calls"]
+    impl, _ = D.run_timer(cfg, calls)
+    init = cfg["init"]
+    existing = [] if init is None else ([init] if isinstance(init, str) else list(init))
+    st = {}  # label -> [running since | None, accumulated, start of the trailing run | None]
+    for i, c in enumerate(calls):
+        t, op, arg = c["t"], c["op"], c.get("arg")
+        if op in ("ctx_enter", "ctx_exit"):
+            op = "start" if (c["action"] == "StartStop") == (op == "ctx_enter") else "stop"
+        want = 0
+        if op == "elapsed":
+            lbl = cfg["dflt"] if arg is None else arg
+            if lbl not in existing:
+                want = 0 if arg is None else -1
+            else:
+                since, acc = st.get(lbl, [None, 0.0])
+                cur = 0.0 if since is None else t - since
+                want = cur + (acc if c["total"] else 0.0)
+        elif op == "start":
+            for l in ([cfg["dflt"]] if arg is None else [arg] if isinstance(arg, str) else list(arg)):
+                if l not in existing:
+                    existing.append(l)
+                v = st.setdefault(l, [None, 0.0])
+                if v[0] is None:
+                    v[0] = t
+        else:
+            one = cfg["dflt"] if arg is None else arg
+            ls = (list(dict.fromkeys(existing)) if one == cfg["all"] else [one]) if isinstance(one, str) else list(one)
+            for l in ls:
+                if l not in existing:
+                    want = -1
+                    break
+                v = st.setdefault(l, [None, 0.0])
+                if op == "stop":
+                    if v[0] is not None:
+                        v[1] += t - v[0]
+                        v[0] = None
+                else:
+                    v[0], v[1] = None, 0.0
+        got = impl[i]
+        if float(got) != float(want):
+            return {"cfg": cfg, "calls": calls[: i + 1], "call_index": i, "timer_returned": got, "ideal_stopwatch": want,
+                    "fails": "Timer on a float clock differs from the ideal stop-watch (-1 = KeyError)"}
+    return None
 
 
 def check_timer_exhaustive(ctx, model, depth=3):
@@ -701,6 +792,8 @@ def correspond(ctx, model):
     #     None / 'a' / the all label / a list with an unknown label in the middle / an unknown label), clock advancing
     #     by 2 per call, every label queried (both values of `total`) after every call
     check_timer_exhaustive(ctx, model)
+    # 2c. float clock (exact dyadic values, also negative) against the generic-clock model
+    check_timer_float(ctx, model, 30 if ctx.thorough else MAX_OPS_QUICK)
     # 3. constructor keywords / statistics columns / finiteness test / transpose
     check_kwargs(ctx, model)
     check_itstat_setup(ctx, model)
